@@ -17,6 +17,8 @@ def histories():
         "create_file 2 %s 3" % hexs("inner.txt"),
         "write_pat 3 700 9",
         "drop_file 3",
+    ] + ["create_file 2 %s 3" % hexs("grow%d" % j) for j in range(7)] + [      # the 7th makes a 16-slot directory cluster overflow: the directory grows
+        "drop_file 3",
         "seek 1 start 600",
         "read 1 900",
         "list 0",
@@ -33,6 +35,7 @@ def histories():
         "drop_file 1",
         "remove 0 %s" % hexs("subdir/moved and renamed.txt"),
         "remove 0 %s" % hexs(long1),
+    ] + ["remove 0 %s" % hexs("subdir/grow%d" % j) for j in range(7)] + [
         "open_dir 0 %s 5" % hexs("subdir"),
         "status_flags",
         "label_root",
@@ -62,6 +65,16 @@ def run(rep, tier, seed):
         res = vlib.run_scripts([free_script])[0]
         base = len(head) + 1
         ncalls = [sum(1 for e in r.events if e[0] == "c") for r in res[base:]]
+        # positions of the calls that are not plain reads (writes, flushes and the seek in front of each): few per operation,
+        # always enumerated, also in the quick tier
+        special = []
+        for r in res[base:]:
+            cs = [e for e in r.events if e[0] == "c"]
+            sp = set()
+            for j, e in enumerate(cs):
+                if e[1] in ("write", "flush"):
+                    sp.add(j); sp.add(j - 1)
+            special.append(sorted(x for x in sp if x >= 0))
         bad0 = [r for r in res if r.kind in ("panic", "hang", "bad")]
         if bad0:
             rep.violation("[C09] fault-free reference run failed: %r" % bad0[0], {"script": free_script}, nofail=True)
@@ -72,7 +85,8 @@ def run(rep, tier, seed):
             ks = list(range(n))
             if tier == "quick" and n > 60:
                 step = max(1, n // 60)
-                ks = sorted(set(list(range(0, n, step)) + [n - 1, n - 2, 0, 1, 2] + [rng.below(n) for _ in range(10)]))
+                sp = special[i] if len(special[i]) <= 150 else [special[i][j] for j in range(0, len(special[i]), len(special[i]) // 150 + 1)]
+                ks = sorted(set(list(range(0, n, step)) + [n - 1, n - 2, 0, 1, 2] + [rng.below(n) for _ in range(10)] + sp))
                 ks = [k for k in ks if 0 <= k < n]
             for k in ks:
                 scripts.append(head + ops[:i] + ["budget 300000", "fault %d any" % k, op])
